@@ -298,9 +298,13 @@ func Tokenize(source string) ([]Token, error) {
 			lines := strings.Split(match, "\n")
 			lastLinesIndex := len(lines) - 1
 			row += lastLinesIndex
-			ogColumn = startIndex
 			i += len(match)
-			ogI = i - len(lines[lastLinesIndex])
+
+			// Only a comment that spans several lines restarts the column count.
+			if lastLinesIndex > 0 {
+				ogColumn = startIndex
+				ogI = i - len(lines[lastLinesIndex])
+			}
 		} else if matches := regexp.MustCompile(`^\/\/(.*)`).FindStringSubmatch(source[i:]); matches != nil {
 			// Single line comment.
 			token = newToken(matches[1], COMMENT, ogRow, ogColumn)
